@@ -13,7 +13,7 @@ import re
 
 from .. import doccheck, editgen, engine_oracles, engine_run, gen, ooxml, sem
 
-PROFILES = {"default": {}, "breaks": {"br": 0.45, "tab": 0.2, "fmt": 0.8, "ins": 0.05, "del": 0.05, "subst": 0.0, "comment": 0.1,
+PROFILES = {"default": {}, "breaks": {"br": 0.45, "br_typed": 0.5, "tab": 0.2, "fmt": 0.8, "ins": 0.05, "del": 0.05, "subst": 0.0, "comment": 0.1,
                                       "hyperlink": 0.0, "vmerge": 0.0, "point_comment": 0.0, "runs": (2, 5)}, "tables": {"table": 0.5, "nested_table": 0.3, "empty_para": 0.15, "header": 0.5, "footer": 0.5},
             "markup": {"fmt": 0.7, "comment": 0.3, "reply": 0.6, "ins": 0.3, "del": 0.3, "subst": 0.25, "br": 0.2, "empty_run": 0.15,
                        "comment_on_del": 0.4, "overlap_comment": 0.15}}
